@@ -482,11 +482,17 @@ func runReal(c Case) (o hx.Outcome) {
 		absTarget = strings.HasPrefix(c.PreLink, "/")
 	}
 	kinds := map[string]bool{}
+	type acc struct{ name, k, target string }
+	hist := [][]acc{nil} // entries accepted so far, per open directory (innermost last)
+	sameName := map[string]bool{}
 	ei := 0
 	for _, op := range c.Ops {
 		if op.K == "bye" {
 			if depth > 0 {
 				depth--
+			}
+			if len(hist) > 1 {
+				hist = hist[:len(hist)-1]
 			}
 			continue
 		}
@@ -527,9 +533,66 @@ func runReal(c Case) (o hx.Outcome) {
 				absTarget = true
 			}
 		}
+		if !op.NoName && ei < len(res.Calls) && res.Calls[ei].Err == "" {
+			h := append(hist[len(hist)-1], acc{raw, op.K, op.Target})
+			hist[len(hist)-1] = h
+			seq := func(n int) (ks string, same, prefix bool) { // the last n accepted entries of this directory
+				if len(h) < n {
+					return "", false, false
+				}
+				t := h[len(h)-n:]
+				same, prefix = true, true
+				var parts []string
+				for i, e := range t {
+					parts = append(parts, e.k)
+					if e.name != t[0].name {
+						same = false
+					}
+					if i > 0 && !strings.HasPrefix(e.name, t[0].name) {
+						prefix = false
+					}
+				}
+				return strings.Join(parts, ">"), same, prefix
+			}
+			if ks, same, prefix := seq(3); ks != "" && (same || prefix) {
+				label := map[string]string{"dir>file>sym": "dir-then-file-then-symlink", "file>sym>file": "file-then-symlink-then-file",
+					"file>sym>dir": "file-then-symlink-then-dir", "dir>file>dir": "dir-then-file-then-dir", "sym>file>sym": "symlink-then-file-then-symlink"}[ks]
+				if label == "" {
+					label = "other-3"
+				}
+				if same {
+					sameName["same-name:"+label] = true
+					if ks == "dir>file>sym" {
+						nontrivial = true
+						if existingOutside[op.Target] {
+							sameName["same-name:dir-then-file-then-symlink:target-exists-outside"] = true
+						}
+					}
+				} else {
+					sameName["same-name:prefix-names:"+label] = true
+				}
+			}
+			if ks, same, _ := seq(4); ks != "" && same {
+				sameName["same-name:length>=4"] = true
+			}
+		}
+		if !op.NoName && op.K == "sym" && ei < len(res.Calls) && res.Calls[ei].Err != "" {
+			if h := hist[len(hist)-1]; len(h) > 0 && h[len(h)-1].k == "dir" && h[len(h)-1].name == raw {
+				sameName["same-name:dir-then-symlink(refused)"] = true
+			}
+		}
 		if op.K == "dir" {
 			depth++
+			hist = append(hist, nil)
 		}
+	}
+	for k := range sameName {
+		o.Class(k)
+	}
+	if len(before) >= 40 {
+		// every object outside dest was recorded with mode, owner, ns mtime, xattrs, link target and
+		// content before and after (sentinels carry distinct old mtimes)
+		o.Class("outside:metadata-compared")
 	}
 	for _, cl := range res.Calls {
 		if cl.Cross != "" {
@@ -878,7 +941,7 @@ func genCase(t *rapid.T) Case {
 		}
 	}
 
-	switch rapid.SampledFrom([]string{"random", "random", "sym-child", "sym-child", "sym-dir", "replace", "self", "self", "dotdot-dir", "dotdot-entry", "dotdot-entry", "absolute", "long"}).Draw(t, "scenario") {
+	switch rapid.SampledFrom([]string{"random", "random", "sym-child", "sym-child", "sym-dir", "replace", "self", "self", "dotdot-dir", "dotdot-entry", "dotdot-entry", "absolute", "long", "same-name", "same-name", "same-name"}).Draw(t, "scenario") {
 	case "random":
 		for i, n := 0, rapid.IntRange(1, 8).Draw(t, "n"); i < n; i++ {
 			if rapid.IntRange(0, 7).Draw(t, "bye") == 0 {
@@ -915,6 +978,37 @@ func genCase(t *rapid.T) Case {
 					ops = append(ops, Op{K: "bye"})
 				}
 			}
+		}
+	case "same-name": // 3+ entries of one directory under the same name (or names that are prefixes of each other)
+		names := rapid.SampledFrom([][]string{{"d"}, {"d"}, {"d"}, {"d", "d2", "d.x"}, {"d", "d2"}, {"a", "ab"}, {"l"}}).Draw(t, "names")
+		pattern := rapid.SampledFrom([][]string{{"dir", "file", "sym"}, {"dir", "file", "sym"}, {"dir", "file", "sym"}, {"dir", "sym"}, {"file", "sym", "file"},
+			{"dir", "file", "sym", "dir"}, {"file", "sym", "dir"}, {"dir", "dir", "file", "sym"}, {"sym", "file", "sym"}, nil}).Draw(t, "pattern")
+		if pattern == nil {
+			for i, n := 0, rapid.IntRange(3, 6).Draw(t, "n"); i < n; i++ {
+				pattern = append(pattern, rapid.SampledFrom([]string{"dir", "file", "sym", "sym", "dev"}).Draw(t, "pk"))
+			}
+		}
+		outsideTargets := []string{"../../outside", "/sb/outside", "/sb/l1/l2/outside", "/outside", "/abs", "../..", "/sb/l1/l2/l3/sib",
+			"../../xvictim", "/sb/l1/xvictim", "/xvictim", "/victim", "/abs/x", "../../outside/f", "/sb/victim", "../victim", "../outside"}
+		for i, k := range pattern {
+			o := plainEntry(t, k, names[rapid.IntRange(0, len(names)-1).Draw(t, "ni")])
+			if k == "sym" {
+				o.Target = rapid.SampledFrom(outsideTargets).Draw(t, "outside-target")
+				o.Xattrs = nil
+			}
+			if k == "dir" {
+				o.Mtime = 1_300_000_000 + int64(i)*86_400 + int64(rapid.IntRange(1, 999).Draw(t, "dm")) // non-epoch, distinct
+				ops = append(ops, o)
+				if rapid.IntRange(0, 3).Draw(t, "child") == 0 {
+					ops = append(ops, genEntry(t, []string{"file", "sym", "dir"}, []string{"plain"}, nil))
+					if ops[len(ops)-1].K == "dir" {
+						ops = append(ops, Op{K: "bye"})
+					}
+				}
+				ops = append(ops, Op{K: "bye"})
+				continue
+			}
+			ops = append(ops, o)
 		}
 	case "self": // entries that name the current directory itself: replace it by a file, then by a symlink, then add children
 		if rapid.Bool().Draw(t, "indir") {
@@ -985,7 +1079,7 @@ var spec = &hx.Spec[Case]{
 	Level: "exploration",
 	Rule: "cases = hostile catar element sequences (own encoder, names verbatim, well-formed goodbye tables) unpacked by UnTar(LocalFS) or UnTarIndex(LocalStore) " +
 		"in a chrooted child; non-trivial = the unpacker was handed (all earlier entries accepted) at least one entry whose name has a '..' component or a '/', " +
-		"or an entry whose path crosses a symlink made earlier by the same archive (or left in dest by an earlier unpack); distinct by (path, sequence of entry kinds, names, symlink targets)",
+		"or an entry whose path crosses a symlink made earlier by the same archive (or left in dest by an earlier unpack), or a directory, a file and a symlink accepted under one name in one directory (work deferred for the directory then meets the link); distinct by (path, sequence of entry kinds, names, symlink targets)",
 	Assumptions: []string{
 		"oracle: lstat fields (type, mode, owner, mtime), link targets, device numbers and file contents of every object in the chroot tree outside dest are equal before and after; directory mtime differences explained by a reported child are folded into that child; atime and ctime are not compared; extended attributes are compared (llistxattr/lgetxattr on the object itself, as root: user.*, trusted.*, security.*)",
 		"the destination exists and is a real directory, empty or holding one symlink 'l' (as an earlier unpack could leave it); nothing but the unpacker touches the tree",
@@ -997,6 +1091,8 @@ var spec = &hx.Spec[Case]{
 		"name:dotdot", "name:dotdot-prefix", "name:inner-dotdot", "name:absolute", "name:slash", "name:empty", "name:dot", "name:dot-slash", "name:long",
 		"name:symlink-name", "name:nameless", "name:self-slash", "symlink-then-entry", "absolute-symlink-target",
 		"xattrs:sym", "xattrs:file", "xattrs:dir", "xattrs:sym:restored:target-exists-outside",
+		"same-name:dir-then-file-then-symlink", "same-name:dir-then-file-then-symlink:target-exists-outside", "same-name:file-then-symlink-then-file",
+		"same-name:dir-then-symlink(refused)", "same-name:prefix-names:dir-then-file-then-symlink", "same-name:length>=4", "outside:metadata-compared",
 		"entry:dir", "entry:file", "entry:sym", "entry:dev", "result:error", "result:nil", "entry-path-crosses-archive-symlink", "symlink-in-dest-before-the-run"},
 	Gen: genCase,
 	Run: run,
@@ -1199,9 +1295,46 @@ func TestEnum(t *testing.T) {
 			}
 		}
 	}
+	// one name used by a directory, a file and a symlink in turn (and names that are prefixes of
+	// each other), links to outside files and directories, directory mtimes non-epoch and distinct
+	stargets := hx.Pick([]string{"/sb/l1/xvictim", "../../outside", "/sb/outside", "../victim", "/abs/x"},
+		[]string{"/sb/l1/xvictim", "../../xvictim", "../victim", "/victim", "/abs/x", "../../outside/f", "../../outside", "../outside", "/sb/outside", "/outside", "/abs", "../..", "/", "nonexistent"})
+	dirAt := func(name string, mtime int64) Op {
+		o := attr(Op{K: "dir", Name: name})
+		o.Mtime = mtime
+		return o
+	}
+	for _, tg := range stargets {
+		sym := func(name string) Op { return attr(Op{K: "sym", Name: name, Target: tg}) }
+		file := func(name string) Op { return attr(Op{K: "file", Name: name}) }
+		bye := Op{K: "bye"}
+		seqs := [][]Op{
+			{dirAt("d", 1_300_000_001), bye, file("d"), sym("d")},
+			{dirAt("d", 1_300_000_002), file("in"), bye, file("d"), sym("d"), file("z")},
+			{dirAt("d", 1_300_000_003), bye, sym("d")},
+			{file("d"), sym("d"), file("d")},
+			{file("d"), sym("d"), dirAt("d", 1_300_000_004), file("x")},
+			{dirAt("d", 1_300_000_005), bye, file("d"), sym("d"), dirAt("d", 1_300_000_006), bye},
+			{dirAt("d", 1_300_000_007), bye, file("d2"), sym("d2")},
+			{dirAt("d", 1_300_000_008), bye, file("d2"), file("d"), sym("d")},
+			{dirAt("d", 1_300_000_009), bye, file("d.x"), sym("d.x"), file("d"), sym("d")},
+			{dirAt("d", 1_300_000_010), dirAt("d", 1_300_000_011), bye, file("d"), sym("d"), bye, file("d"), sym("d")},
+			{dirAt("e", 1_300_000_012), bye, dirAt("d", 1_300_000_013), bye, file("e"), sym("e"), file("d"), sym("d")},
+		}
+		for i, sq := range seqs {
+			for _, p := range pathFor() {
+				cases = append(cases, Case{Path: p, Ops: sq, Workers: 1})
+			}
+			if i < 2 {
+				for _, p := range pathFor() {
+					cases = append(cases, Case{Path: p, Ops: wrapIn(2, sq...), Workers: 1})
+				}
+			}
+		}
+	}
 	hx.AddNote("enumerated_cases", len(cases))
 	if runPool(t, cases) {
-		hx.Exhaustive("listed hostile names x {dir,file,symlink,device} x nesting depths; listed symlink targets (made by the archive or present before) x entries beneath/over the link; replace-current-directory sequences for every listed self name (nameless, empty, '.', '/', '//', '/.', './', './/'); entries with user.*/trusted.* xattrs incl. symlinks to existing outside objects")
+		hx.Exhaustive("listed hostile names x {dir,file,symlink,device} x nesting depths; listed symlink targets (made by the archive or present before) x entries beneath/over the link; replace-current-directory sequences for every listed self name (nameless, empty, '.', '/', '//', '/.', './', './/'); entries with user.*/trusted.* xattrs incl. symlinks to existing outside objects; listed same-name and prefix-name sequences (dir, file, symlink in turn) x listed outside targets")
 	}
 }
 
